@@ -25,6 +25,9 @@ RULES = {
     'R15': ('r15_loaders', 'LOADERS: every input element reaches the model; entry points one tuple per asset'),
     'R16': ('r16_txn', 'TXN: neo4j ingestion: node per element, mirrored relationships, commit'),
     'R18': ('r18_sym', 'SYM: both orientations of an association treated alike and explicitly'),
+    'R10': ('r10_det', 'DET/MODREF/PURE: no hash-order or random source; inputs not written; queries pure'),
+    'R20': ('r20_own', 'OWN: inheritance links read only by closures; attackers reach only own-graph nodes'),
+    'R23': ('r23_shadow', 'SHADOW: a local index built from a container is kept in step with it'),
     'R22': ('r22_memo', 'MEMO: a memo cache is keyed by everything the value depends on'),
     'R8': ('r08_codec', 'CODEC: writer and reader tables of the dict codecs agree'),
 }
@@ -131,7 +134,7 @@ def _p(pid, title, rules, decided, undecided, anchors=(), floor=1, extra_assumpt
 
 
 _p('C01', 'Attack-graph edges are exactly the MAL meaning of the step expressions',
-   ['R1', 'R2', 'R12', 'R8', 'R14', 'R19', 'R22', 'R18'],
+   ['R1', 'R2', 'R12', 'R8', 'R14', 'R19', 'R22', 'R18', 'R20'],
    decided=['R1: the evaluator never removes from a list it iterates (set operators, sub-type '
             'filter, recursion through callee summaries)',
             'R2: every child link created by generation is mirrored by the converse parent link on '
@@ -241,7 +244,7 @@ _p('C08', 'Viability/necessity labels are the greatest fixed point, in any node 
             ('R17', 'calculate_viability_and_necessity')], floor=5)
 
 _p('C09', 'Attack-graph structure and lookup indexes stay consistent in any history',
-   ['R1', 'R2', 'R3', 'R4', 'R7'],
+   ['R1', 'R2', 'R3', 'R4', 'R7', 'R20'],
    decided=['R1: no loop of the attack-graph layer removes from the list it walks',
             'R4: node/attacker ids: explicit id honoured, duplicate test on the stored id, counters monotone',
             'R7: the graph deep copy carries indexes and counters and re-links children, parents and '
@@ -275,26 +278,32 @@ _p('C10', 'Saving and loading an attack graph preserves it',
             ('R4', 'AttackGraph.add_node')], floor=40)
 
 _p('C11', 'Attackers and nodes always agree on what is compromised',
-   ['R1', 'R2', 'R7'],
+   ['R1', 'R2', 'R7', 'R20', 'R8'],
    decided=['R1: remove_attacker does not shrink the reached list while walking it',
             'R2: compromise/undo_compromise update node.compromised_by and '
             'attacker.reached_attack_steps together on the same two objects; remove_attacker '
             'cleans compromised_by',
-            'R7c: the graph copy re-links compromised_by from memo-mapped attackers'],
+            'R7c: the graph copy re-links compromised_by from memo-mapped attackers',
+            'R20 OWNNODES: attach_attackers / add_attacker compromise and record only nodes taken from this '
+            'graph\'s own containers (lookup by full name / id), never model-side caches',
+            'R8vii: the entry-point lookup name uses the same template as the full-name index key'],
    undecided=['pjs/name lookups'],
    anchors=[('R1', 'AttackGraph.remove_attacker'), ('R2', 'Attacker.compromise'),
             ('R2', 'Attacker.undo_compromise'), ('R2', 'AttackGraph.remove_attacker'),
-            ('R7', 'AttackGraph.__deepcopy__')])
+            ('R7', 'AttackGraph.__deepcopy__'), ('R20', 'AttackGraph.attach_attackers'),
+            ('R8', 'AttackGraph.attach_attackers')])
 
 _p('C12', 'Attack-surface queries follow their definition; incremental = recomputed',
-   ['R17', 'R12'],
+   ['R17', 'R12', 'R10', 'R23'],
    decided=['R17 T7: is_node_traversable_by_attacker equals: viable and (or-step, or and-step all of whose '
             'necessary parents THIS attacker compromised)',
             'R17 T8: is_enabled_defense / is_available_defense and the two defense surfaces equal their definitions; '
             'get_attack_surface and update_attack_surface_add_nodes filter children by the same traversability '
             'predicate and the same de-duplication test, over reached steps resp. the supplied nodes',
-            'R12: the traversability dispatcher has a case for every step type'],
-   undecided=['incremental = recomputed as a set equation over histories', 'purity of the queries (R11, not built)'],
+            'R12: the traversability dispatcher has a case for every step type',
+            'R11 PURE: no query function has an effect on a graph / node / attacker field (only the '
+            'caller-supplied surface list grows)'],
+   undecided=['incremental = recomputed as a set equation over histories'],
    anchors=[('R17', 'is_node_traversable_by_attacker'), ('R17', 'get_attack_surface'),
             ('R17', 'update_attack_surface_add_nodes'), ('R17', 'get_defense_surface')], floor=6)
 
@@ -324,11 +333,16 @@ _p('C14', 'A deep copy of an attack graph is equal and fully independent',
             ('R7', 'AttackGraph.__deepcopy__')], floor=20)
 
 _p('C16', 'Graph generation is deterministic and does not disturb its inputs',
-   ['R6', 'R22'],
+   ['R6', 'R22', 'R10'],
    decided=['R6: generation, analysis and lookups never mutate an object that may be owned by the loaded '
-            'language specification'],
-   undecided=['determinism across hash seeds (rule R10, not built yet)', 'third-party internals',
-              'model serialisation unchanged (MODREF, not built yet)'],
+            'language specification',
+            'R10 DET: no function reachable from compile / language graph / model load / generation / attach / '
+            'analysis / save takes an iteration order from a hash set, uses id()/hash() as a sort key, or calls a '
+            'random / time / directory-listing source',
+            'R10 MODREF: generation, attach, analysis, pruning and graph loading write nothing reachable from '
+            'the model or language except asset.attack_step_nodes',
+            'R22: memo caches are keyed by everything the value depends on'],
+   undecided=['third-party internals (pjs, yaml, json ordering)', 'cross-process equality as such'],
    anchors=[('R6', 'LanguageGraph._get_attacks_for_asset_type'), ('R6', 'AttackGraph._generate_graph')],
    floor=5)
 
@@ -341,7 +355,7 @@ _p('C17', 'Malformed MAL source is rejected, never half-compiled',
    anchors=[('R9', 'MalCompiler.compile')], floor=2)
 
 _p('C15', 'Language graph mirrors the language and over-approximates every attack graph',
-   ['R2', 'R3', 'R9', 'R12', 'R18', 'R22'],
+   ['R2', 'R3', 'R9', 'R12', 'R18', 'R22', 'R20'],
    decided=['R2: super_assets/sub_assets and step children/parents are created pairwise (P3, P4)',
             'R9b: lookups of super asset, association ends, sub-type, target asset and target step are '
             'each followed by a test whose failing branch raises',
